@@ -1,5 +1,6 @@
 (* More operations under which coherence (PropSim.COH) is kept: binding an EXISTING unbound property (which may have readers) with
-   immediate evaluation, Property::reset(), and assigning a new immediate binding to a bound property. *)
+   immediate evaluation, Property::reset(), assigning a new immediate binding to a bound property, and destroying a property
+   that no binding reads. *)
 From KDB Require Import Util UtilProofs PropDefs PropFlags PropLink PropLinkBasics PropLinkOps PropLinkTheorems PropSim PropGrow PropSimLazy PropGrowLazy.
 From KDB Require PropAbs PropAbsProofs PropProofs PropCheck.
 Module A := PropAbs.
@@ -196,12 +197,144 @@ Section More.
       assert (T' = T) by congruence. subst T'. split; [exact C'|]. split; [exact N'|]. intros p0 lid Hi. rewrite Vr. exact (V' p0 lid Hi).
   Qed.
 
+  (* ---- destroying a property that nobody reads ---- *)
+  (* same world up to the trace *)
+  Definition sbt (w w' : world) : Prop :=
+    w_tables w' = w_tables w /\ w_props w' = w_props w /\ w_binds w' = w_binds w /\ w_evps w' = w_evps w /\ w_bevs w' = w_bevs w /\
+    w_obs w' = w_obs w /\ w_held w' = w_held w /\ w_serial w' = w_serial w.
+  Lemma sbt_refl w : sbt w w. Proof. repeat split. Qed.
+  Lemma sbt_trans a b c : sbt a b -> sbt b c -> sbt a c.
+  Proof. intros (A1 & A2 & A3 & A4 & A5 & A6 & A7 & A8) (B1 & B2 & B3 & B4 & B5 & B6 & B7 & B8). repeat split; congruence. Qed.
+
+  Lemma walk_obs_only R t p k payload tb :
+    (forall x ser s, nth_error (t_slots tb) x = Some (Some (ser, s)) -> exists label, s = SObs label None) ->
+    forall idxs w, get_table w t = Some tb -> exists w', walk fn rtl R w t p k payload idxs = (w', None) /\ sbt w w'.
+  Proof.
+    intros Hobs. induction idxs as [|x r IH]; intros w Ht; cbn [walk]; [exists w; split; [reflexivity|apply sbt_refl]|]. rewrite Ht.
+    destruct (nth_error (t_slots tb) x) as [[[ser s]|]|] eqn:Hn; try exact (IH w Ht).
+    destruct (Hobs _ _ _ Hn) as (label & ->). cbn [deliver].
+    destruct (IH (log (EvNotify label k payload (values w p)) w) Ht) as (w' & Hw & S). exists w'. split; [exact Hw|].
+    eapply sbt_trans; [|exact S]. repeat split.
+  Qed.
+
+  Lemma emit_obs_only R w ot p k payload :
+    (forall t, ot = Some t -> exists tb, get_table w t = Some tb /\ t_emitting tb = false /\
+                 forall x ser s, nth_error (t_slots tb) x = Some (Some (ser, s)) -> exists label, s = SObs label None) ->
+    exists w', emit fn rtl R w ot p k payload = (w', None) /\ sbt w w'.
+  Proof.
+    intros H. destruct ot as [t|]; [|exists w; split; [reflexivity|apply sbt_refl]].
+    destruct (H t eq_refl) as (tb & Ht & Hem & Hobs). unfold emit. rewrite Ht, Hem.
+    set (tb1 := {| t_slots := t_slots tb; t_free := t_free tb; t_emitting := true; t_alive := t_alive tb |}).
+    set (w1 := put_table w t tb1).
+    assert (Hlt : t < length (w_tables w)) by (apply nth_error_Some; unfold get_table in Ht; congruence).
+    assert (Ht1 : get_table w1 t = Some tb1) by (unfold get_table, w1, put_table; cbn [set_tables w_tables]; apply nth_upd_same; exact Hlt).
+    destruct (walk_obs_only R t p k payload tb1 Hobs (seq 0 (length (t_slots tb))) w1 Ht1) as (w2 & Hw & S2). rewrite Hw.
+    destruct S2 as (A1 & A2 & A3 & A4 & A5 & A6 & A7 & A8).
+    assert (Ht2 : get_table w2 t = Some tb1) by (unfold get_table; rewrite A1; exact Ht1). rewrite Ht2.
+    eexists. split; [reflexivity|]. unfold put_table; cbn [set_tables w_tables w_props w_binds w_evps w_bevs w_obs w_held w_serial tb1 t_slots t_free t_alive].
+    repeat split; try assumption. rewrite A1. unfold w1, put_table; cbn [set_tables w_tables]. rewrite upd_upd. apply upd_same.
+    unfold get_table in Ht. rewrite Ht. destruct tb; cbn in *. subst. reflexivity.
+  Qed.
+
+  Lemma kill_table_keeps w ot w1 :
+    kill_table w ot = (w1, None) ->
+    w_props w1 = w_props w /\ w_binds w1 = w_binds w /\ forall t pos ser s, slot_at w1 t pos ser s -> slot_at w t pos ser s.
+  Proof.
+    intros H. destruct (kill_table_cases _ _ _ _ H) as [[_ E]|[(-> & _)|(_ & t & _ & K)]]; [discriminate E|auto|].
+    split; [exact (ke_props _ _ _ K)|]. split; [exact (ke_binds _ _ _ K)|]. intros t' pos ser s Hs. apply (ke_slot _ _ _ K) in Hs. tauto.
+  Qed.
+
+  Lemma grow_del fuel w p w' :
+    SC w -> COH w -> (forall b lf, has_leaf w b lf -> lf_tg lf <> Some p) ->
+    step1 fn rtl fuel w (PDel p) = (w', None) -> SC w' /\ COH w'.
+  Proof.
+    intros (Hinv & Hna & Hsi) (s & (R1 & R2 & R3) & HInv) Hnr H. cbn [step1] in H.
+    pose proof (destroy_prop_pinv fn rtl fuel w p w' None Hinv H I) as Hinv'. unfold destroy_prop in H.
+    destruct (lookup (w_props w) p) as [pr|] eqn:Hp; [|discriminate H].
+    assert (Pv : pview w p = Some (psigs_of pr)) by (unfold pview; rewrite Hp; reflexivity).
+    (* the tables of p hold plain observers only *)
+    assert (Hobs : forall k t, sig_of pr k = Some t -> exists tb, get_table w t = Some tb /\
+                     forall x ser s0, nth_error (t_slots tb) x = Some (Some (ser, s0)) -> exists label, s0 = SObs label None).
+    { intros k t Hk. assert (Ow : owns w p k t) by (exists (psigs_of pr); split; [exact Pv|destruct k; exact Hk]).
+      destruct (pi_own _ _ _ _ _ _ _ Hinv _ _ _ Ow (fun z => z)) as (sl & fr & Et). apply tview_Some in Et. destruct Et as (tb & Ht & <- & <- & Hal).
+      exists tb. split; [exact Ht|]. intros x ser s0 Hn.
+      assert (Hs : slot_at w t x ser s0) by (exists (t_slots tb), (t_free tb), (t_alive tb); split; [unfold tview; rewrite Ht; reflexivity|exact Hn]).
+      destruct s0 as [label act|b l]; [exists label; rewrite (Hna _ _ _ _ _ Hs); reflexivity|]. exfalso.
+      destruct (pi_slot _ _ _ _ _ _ _ Hinv _ _ _ _ _ (fun z => z) Hs) as (lf & Hl & Hid & _).
+      exact (Hnr b lf Hl (pi_slotown _ _ _ _ _ _ _ Hinv _ _ _ _ _ _ _ _ Hs Hl Hid Ow (fun z => z))). }
+    destruct (emit_obs_only (set_helper fn rtl fuel) w (pr_destroyed pr) p KDestroyed []) as (w1 & He & S1).
+    { intros t Et. destruct (Hobs KDestroyed t Et) as (tb & Ht & Ho). exists tb. split; [exact Ht|]. split; [|exact Ho].
+      destruct (t_emitting tb) eqn:Hem; [|reflexivity]. exfalso.
+      unfold emit in H. rewrite Et, Ht, Hem in H. discriminate H. }
+    rewrite He in H. destruct S1 as (T1 & P1 & B1 & _ & _ & O1 & Hd1 & Sr1).
+    destruct (match pr_updater pr with Some b => destroy_binding w1 b | None => ok w1 end) as [w2 [ex|]] eqn:Hu; [discriminate H|].
+    destruct (kill_table w2 (pr_destroyed pr)) as [w3 [ex|]] eqn:K3; [discriminate H|].
+    destruct (kill_table w3 (pr_moved pr)) as [w4 [ex|]] eqn:K4; [discriminate H|].
+    destruct (kill_table w4 (pr_changed pr)) as [w5 [ex|]] eqn:K5; [discriminate H|].
+    destruct (kill_table w5 (pr_about pr)) as [w6 [ex|]] eqn:K6; [discriminate H|]. inversion H; subst w'; clear H.
+    destruct (kill_table_keeps _ _ _ K3) as (P3 & B3 & S3). destruct (kill_table_keeps _ _ _ K4) as (P4 & B4 & S4).
+    destruct (kill_table_keeps _ _ _ K5) as (P5 & B5 & S5). destruct (kill_table_keeps _ _ _ K6) as (P6 & B6 & S6).
+    assert (S01 : forall t pos ser s0, slot_at w1 t pos ser s0 -> slot_at w t pos ser s0).
+    { intros t pos ser s0 (sl & fr & al & Et & En). exists sl, fr, al. split; [|exact En]. unfold tview, get_table in *. rewrite T1 in Et. exact Et. }
+    assert (G01 : forall b, get_bind w1 b = get_bind w b) by (intros b; unfold get_bind; rewrite B1; reflexivity).
+    (* the binding of p, if any, dies; every other binding is untouched *)
+    assert (H2 : w_props w2 = w_props w /\ (forall t pos ser s0, slot_at w2 t pos ser s0 -> slot_at w t pos ser s0) /\
+                 forall b, pr_updater pr <> Some b -> get_bind w2 b = get_bind w b).
+    { destruct (pr_updater pr) as [bp|] eqn:Hub.
+      - assert (Hinv1 : pinv w1).
+        { eapply pinvg_views; [|exact Hinv]. split; [intros b; unfold bview; rewrite G01; reflexivity|]. split; [intros t; unfold tview, get_table; rewrite T1; reflexivity|].
+          split; [intros q; unfold pview; rewrite P1; reflexivity|]. split; [exact O1|]. split; [exact Hd1|]. split; [exact Sr1|rewrite B1; reflexivity]. }
+        destruct (destroy_binding_pinvg _ _ _ _ _ _ _ _ _ Hinv1 (fun z => z) Hu) as (_ & _ & _ & _ & I5 & _ & _ & _ & _ & Hsl & _).
+        split; [rewrite I5; exact P1|]. split; [intros t pos ser s0 Hs; apply S01, Hsl; exact Hs|].
+        intros b Hb. rewrite (destroy_binding_get_bind _ _ _ _ Hu b) by congruence. apply G01.
+      - inversion Hu; subst w2. split; [exact P1|]. split; [exact S01|]. intros b _. apply G01. }
+    destruct H2 as (P2 & S2 & G2).
+    set (w' := set_props w6 (remove_key (w_props w6) p)).
+    assert (Pw : w_props w' = remove_key (w_props w) p) by (unfold w'; cbn [set_props w_props]; rewrite P6, P5, P4, P3, P2; reflexivity).
+    assert (Gw : forall b, pr_updater pr <> Some b -> get_bind w' b = get_bind w b).
+    { intros b Hb. rewrite <- (G2 b Hb). unfold get_bind, w'; cbn [set_props w_binds]. rewrite B6, B5, B4, B3. reflexivity. }
+    assert (Sw : forall t pos ser s0, slot_at w' t pos ser s0 -> slot_at w t pos ser s0).
+    { intros t pos ser s0 Hs. apply S2, S3, S4, S5, S6. exact Hs. }
+    assert (IO : forall q, imm_of w' q = if Nat.eqb q p then None else imm_of w q).
+    { intros q. unfold imm_of. rewrite Pw. destruct (Nat.eqb_spec q p) as [->|Hne]; [rewrite lookup_remove_same; reflexivity|].
+      rewrite lookup_remove_other by exact Hne. destruct (lookup (w_props w) q) as [pr'|] eqn:Hq; [|reflexivity]. destruct (pr_updater pr') as [b'|] eqn:Hu'; [|reflexivity].
+      rewrite Gw; [reflexivity|]. intros Hb.
+      assert (Pq' : pview w q = Some (psigs_of pr')) by (unfold pview; rewrite Hq; reflexivity).
+      destruct (pi_upd _ _ _ _ _ _ _ Hinv _ _ _ Pq' Hu' (fun z => z)) as (ls & Eb).
+      destruct (pi_upd _ _ _ _ _ _ _ Hinv _ _ _ Pv Hb (fun z => z)) as (ls' & Eb'). rewrite Eb in Eb'. inversion Eb'. contradiction. }
+    set (s' := {| A.env := A.env s; A.tr := fun q => if Nat.eqb q p then None else A.tr s q; A.oof := false |}).
+    assert (Rel' : Rel w' s').
+    { split; [|split; [|reflexivity]].
+      - intros q prq Hq. rewrite Pw in Hq. cbn [s' A.env]. destruct (Nat.eq_dec q p) as [->|Hne]; [rewrite lookup_remove_same in Hq; discriminate Hq|].
+        rewrite lookup_remove_other in Hq by exact Hne. auto.
+      - intros q. cbn [s' A.tr]. rewrite IO. destruct (Nat.eqb q p); [reflexivity|apply R2]. }
+    split.
+    - split; [exact Hinv'|]. split.
+      + intros t pos ser label act Hs. eapply Hna. apply Sw. exact Hs.
+      + intros q x Hx. rewrite IO in Hx. destruct (Nat.eqb q p); [discriminate Hx|eauto].
+    - exists s'. split; [exact Rel'|]. apply Inv_from_parts; [exact Hinv'|exact Rel'|].
+      intros q t Ht. cbn [s' A.tr A.env] in *. destruct (Nat.eqb q p); [discriminate Ht|]. destruct (HInv q t Ht) as (A1 & A2 & A3 & _). auto.
+  Qed.
+
+  (* "nobody reads p", decidably: no leaf of a live binding refers to p *)
+  Definition no_reader_b (w : world) (p : nat) : bool :=
+    forallb (fun x => negb (b_alive x) || forallb (fun lf => match lf_tg lf with Some q => negb (Nat.eqb q p) | None => true end) (leaves (b_root x)))
+            (w_binds w).
+  Lemma no_reader_sound w p : no_reader_b w p = true -> forall b lf, has_leaf w b lf -> lf_tg lf <> Some p.
+  Proof.
+    intros H b lf (ls & tg & E & Hi) Ht. unfold bview, get_bind in E. destruct (nth_error (w_binds w) b) as [x|] eqn:Hn; [|discriminate E].
+    destruct (b_alive x) eqn:Ha; [|discriminate E]. inversion E; subst ls tg.
+    unfold no_reader_b in H. rewrite forallb_forall in H. specialize (H x (nth_error_In _ _ Hn)). rewrite Ha in H. cbn [negb orb] in H.
+    rewrite forallb_forall in H. specialize (H lf Hi). rewrite Ht, Nat.eqb_refl in H. discriminate H.
+  Qed.
+
   (* ---- histories: growing networks whose properties may also be bound later and reset ---- *)
   Definition grow_op2 (w : world) (o : op) : Prop :=
     match o with
     | PNew _ _ | PSet _ _ _ | PGet _ | PHasBinding _ | PReset _ => True
     | PObserve _ _ _ _ None => True
     | PBind _ _ MImmediate => True
+    | PDel p => no_reader_b w p = true
     | _ => False
     end.
 
@@ -210,6 +343,7 @@ Section More.
   Proof.
     intros HSC HC Ho H. destruct o; cbn [grow_op2] in Ho; try (exfalso; exact Ho).
     - eapply (grow_step fn rtl); eauto. exact I.
+    - eapply grow_del; eauto. apply no_reader_sound. exact Ho.
     - eapply (grow_step fn rtl); eauto. exact I.
     - eapply (grow_step fn rtl); eauto. exact I.
     - eapply (grow_step fn rtl); eauto. exact I.
